@@ -11,3 +11,7 @@ def c06(rep):
 
 def c08(rep):
     pass
+
+
+def c02(rep):
+    pass
